@@ -278,11 +278,19 @@ pub fn generate(seed: u64, n: usize, thorough: bool, corpus: Option<&str>) -> Ve
     }
 
     // --- all token sequences over 14 token classes up to a length bound
-    let max_len = if thorough { 5 } else { 3 };
+    let max_len = if thorough { 5 } else { 4 };
     for len in 1..=max_len {
         let mut seqs = vec![];
         exhaustive(len, &mut seqs);
         for s in seqs { push(one(&s, 0, &mut r, "exhaustive-tokens"), &mut cases); }
+    }
+
+    // --- uniformly random sequences over the same classes, beyond the exhaustive bound
+    let nrand = if thorough { 10 * n } else { 5 * n };
+    for _ in 0..nrand {
+        let len = max_len + 1 + r.below(5);
+        let t: Vec<T> = (0..len).map(|_| class_tok(CLASSES[r.below(CLASSES.len())])).collect();
+        push(one(&t, 0, &mut r, "random-tokens"), &mut cases);
     }
 
     // --- every pair (and triple) of binary operators, every spelling, with and without prefix operators
